@@ -295,6 +295,7 @@ func checkC15(c *Ctx, r *Report) {
 			r.Undecided("C15.R4", "type "+s, "-", "unresolved anchor type "+s)
 		}
 	}
+	checkRuntimeGlobals(c, r, li)
 	liveEscapes := checkMetaEscapes(c, r, li)
 	// execution contexts of functions (which kinds of roots reach them)
 	ctxOf := map[string]string{}
@@ -640,4 +641,98 @@ func checkMetaEscapes(c *Ctx, r *Report, li *LockInfo) int {
 	}
 	r.Floor("C15.R2", n, 4, "metadata escape points of package cache")
 	return live
+}
+
+// checkRuntimeGlobals (C15.R6): package-level variables of the module that are assigned while the program runs.
+// A variable written by code reachable from a run-time root (request handling, the dashboard API, a configuration
+// change handler, the janitor) is shared between goroutines; unless its type synchronises itself (sync.*, atomic.*,
+// the module's atomics / syncmap types) every run-time access to it must hold a common lock.
+func checkRuntimeGlobals(c *Ctx, r *Report, li *LockInfo) {
+	var roots []*ssa.Function
+	for _, f := range li.Fns {
+		k := fnKey(f)
+		switch {
+		case k == "(*reservoir/cache.cacheJanitor).start$1", k == "(*reservoir/proxy.Proxy).ServeHTTP", k == "reservoir/webserver/api.WrapHandler$1", k == "reservoir/config.UpdatePartialFromConfig":
+			roots = append(roots, f)
+		}
+		eachCall(f, func(call ssa.CallInstruction, n string) {
+			if strings.HasSuffix(n, "config.ConfigProp).OnChange") {
+				for _, a := range call.Common().Args {
+					if fn := closureFn(a); fn != nil {
+						roots = append(roots, fn)
+					}
+				}
+			}
+		})
+	}
+	reach, _ := allReach(li, roots)
+	selfSync := func(t types.Type) bool {
+		s := t.String()
+		return strings.HasPrefix(s, "sync.") || strings.HasPrefix(s, "sync/atomic.") || strings.HasPrefix(s, "*sync") || strings.Contains(s, "reservoir/utils/atomics.") || strings.Contains(s, "reservoir/utils/syncmap.") || strings.Contains(s, "log/slog.LevelVar") || strings.Contains(s, "singleflight.Group")
+	}
+	type acc struct {
+		in    ssa.Instruction
+		fn    *ssa.Function
+		write bool
+	}
+	byGlobal := map[*ssa.Global][]acc{}
+	for f := range reach {
+		if !isModPath(originPkgPath(f)) || strings.HasPrefix(originPkgPath(f), "reservoir/tests") {
+			continue
+		}
+		eachInstr(f, func(in ssa.Instruction) {
+			switch x := in.(type) {
+			case *ssa.Store:
+				if g, ok := x.Addr.(*ssa.Global); ok && isModPath(g.Pkg.Pkg.Path()) {
+					byGlobal[g] = append(byGlobal[g], acc{in, f, true})
+				}
+			case *ssa.UnOp:
+				if g, ok := x.X.(*ssa.Global); ok && x.Op == token.MUL && isModPath(g.Pkg.Pkg.Path()) {
+					byGlobal[g] = append(byGlobal[g], acc{in, f, false})
+				}
+			}
+		})
+	}
+	n := 0
+	var keys []*ssa.Global
+	for g := range byGlobal {
+		keys = append(keys, g)
+	}
+	sort.Slice(keys, func(i, j int) bool { return keys[i].String() < keys[j].String() })
+	for _, g := range keys {
+		as := byGlobal[g]
+		written := false
+		for _, a := range as {
+			if a.write {
+				written = true
+			}
+		}
+		elem := g.Type().(*types.Pointer).Elem()
+		if !written || selfSync(elem) {
+			continue
+		}
+		n++
+		var common lset
+		var where []string
+		for _, a := range as {
+			held := li.HeldMust(a.in)
+			if common == nil {
+				common = held.clone()
+			} else {
+				common = inter(common, held)
+			}
+			mode := "read"
+			if a.write {
+				mode = "written"
+			}
+			where = append(where, mode+" in "+fnKey(a.fn)+" at "+c.InstrPos(a.in))
+		}
+		key := g.Pkg.Pkg.Path() + "." + g.Name() + ": package variable assigned at run time"
+		if len(common) > 0 {
+			r.Ok("C15.R6", key, "-", fmt.Sprintf("%d run-time accesses, all under %s", len(as), common))
+		} else {
+			r.Fail("C15.R6", key, "-", "a package-level variable of type "+elem.String()+" is assigned by code that runs concurrently (configuration change handlers each run in their own goroutine, API and proxy requests in theirs) and no lock is common to its accesses: "+strings.Join(uniq(where), "; "))
+		}
+	}
+	r.OkT("C15.R6", "package variables assigned at run time are self-synchronising or lock-protected", "-", fmt.Sprintf("%d functions reachable from run-time roots; %d such variables of a plain type", len(reach), n))
 }
